@@ -1351,6 +1351,23 @@ def gibbs_checks(ctx, cuqi, M, L, T, thorough, seed):
         elif kind == "direct-direct":
             return M.HybridGibbs(leaf_joint(), {"s": M.MH(initial_point=np.array([0.5]), scale=0.5), "x": M.Direct()},
                                  num_sampling_steps={"x": 2})
+        # several inner steps per sweep on accept/reject block samplers (scales chosen so that both outcomes are frequent)
+        elif kind == "mh3-cwmh2":
+            return M.HybridGibbs(leaf_joint(), {"s": M.MH(initial_point=np.array([0.5]), scale=1.5), "x": M.CWMH(initial_point=np.zeros(3), scale=1.0)},
+                                 num_sampling_steps={"s": 3, "x": 2})
+        elif kind == "pcn3-mala2":
+            return M.HybridGibbs(leaf_joint(), {"s": M.PCN(initial_point=np.array([0.5]), scale=0.9), "x": M.MALA(initial_point=np.zeros(3), scale=0.6)},
+                                 num_sampling_steps={"s": 3, "x": 2})
+        elif kind == "mh-nuts":
+            return M.HybridGibbs(leaf_joint(), {"s": M.MH(initial_point=np.array([0.5]), scale=0.8), "x": M.NUTS(initial_point=np.zeros(3), max_depth=3)},
+                                 num_sampling_steps={"s": 2, "x": 1})
+        elif kind == "mh3-mh2":
+            s_ = cuqi.distribution.Gaussian(1, 1, name="s")
+            d_ = cuqi.distribution.Uniform(1, 100, name="d")
+            x_ = cuqi.distribution.Gaussian(lambda s: s, lambda d: 1 / d, geometry=1, name="x")
+            jt = cuqi.distribution.JointDistribution(x_, d_, s_)(x=np.array([1.3]))
+            return M.HybridGibbs(jt, {"d": M.MH(initial_point=np.array([3.0]), scale=1.0), "s": M.MH(initial_point=np.array([3.0]), scale=1.0)},
+                                 num_sampling_steps={"d": 3, "s": 2})
         return M.HybridGibbs(target, strat)
 
     def hchain(s):
@@ -1359,7 +1376,8 @@ def gibbs_checks(ctx, cuqi, M, L, T, thorough, seed):
         return [np.concatenate([np.asarray(s.samples[p][i], dtype=float).ravel() for p in names]) for i in range(n)]
 
     hlines, hmeta = [], []
-    for kind in ("rto-conjugate", "mh-conjugate", "direct-mh", "direct-pcn", "direct-direct"):
+    inner_cov = {}
+    for kind in ("rto-conjugate", "mh-conjugate", "direct-mh", "direct-pcn", "direct-direct", "mh3-cwmh2", "pcn3-mala2", "mh3-mh2", "mh-nuts"):
         for K in (0, 3):
             keyb = f"gibbs:HybridGibbs:{kind}"
             desc = {"sampler": "HybridGibbs", "blocks": kind, "N": N, "warmup": K}
@@ -1368,9 +1386,27 @@ def gibbs_checks(ctx, cuqi, M, L, T, thorough, seed):
                 reseed(seed + 7); a = mk_h(kind)
                 sweeps = []
                 orig = a.step
-                def step(a=a, orig=orig, sweeps=sweeps):
+                # block samplers' transitions recorded for the replay-block model (driver op `hgr`)
+                bids, blog = Ids(), []
+                bx0 = [bids(np.ravel(np.asarray(a.samplers[p].initial_point, dtype=float))) for p in a.par_names]
+                for p in a.par_names:
+                    def bstep(sp_=a.samplers[p], o_=a.samplers[p].step, bids=bids, blog=blog):
+                        acc_ = o_()
+                        blog.append((bids(np.ravel(np.asarray(sp_.current_point, dtype=float))), int(np.any(acc_))))
+                        return acc_
+                    a.samplers[p].step = bstep
+                points, pat = [], inner_cov.setdefault(kind, {"sweeps": 0, "earlier_accepted_last_rejected": 0, "all_rejected": 0, "last_accepted": 0})
+                def step(a=a, orig=orig, sweeps=sweeps, points=points, pat=pat):
                     orig()
                     sweeps.append(np.concatenate([np.asarray(a.current_samples[p], dtype=float).ravel() for p in a.par_names]))
+                    # the states the block samplers are actually in after the sweep
+                    points.append(np.concatenate([np.asarray(a.samplers[p].current_point, dtype=float).ravel() for p in a.par_names]))
+                    pat["sweeps"] += 1
+                    for p in a.par_names:
+                        ns_ = a.num_sampling_steps[p]
+                        inner = [bool(np.any(x)) for x in a.samplers[p]._acc[-ns_:]] if ns_ > 0 else []
+                        if ns_ > 1 and inner:
+                            pat["earlier_accepted_last_rejected" if (any(inner[:-1]) and not inner[-1]) else "last_accepted" if inner[-1] else "all_rejected"] += 1
                 a.step = step
                 tunes = []
                 otune = a.tune
@@ -1390,6 +1426,24 @@ def gibbs_checks(ctx, cuqi, M, L, T, thorough, seed):
             if len(sweeps) == len(ref) and not chains_equal(ref, sweeps):
                 ctx.fail(keyb + ":consecutive", desc, "i-th stored state = state after the i-th sweep", f"first difference at {first_diff(ref, sweeps)}",
                          "stored Gibbs chain is not the sequence of consecutive states (an entry was altered later)")
+            if len(points) == len(ref) and not chains_equal(ref, points):
+                ctx.fail(keyb + ":consecutive", {**desc, "num_sampling_steps": {p: int(a.num_sampling_steps[p]) for p in a.par_names}, "random_seed": seed + 7},
+                         "i-th stored entry of every parameter = current_point of its block sampler after the i-th sweep (the state the transitions produced)",
+                         f"first difference at sweep {first_diff(ref, points)}",
+                         "the recorded Gibbs chain lists values that are not the states produced by the block samplers' transitions")
+            try:
+                names_ = a.par_names
+                nrows = len(a.samples[names_[0]])
+                bi = lambda v: str(bids(np.ravel(np.asarray(v, dtype=float))))
+                impl_r = ("C=" + "|".join(bi(a.current_samples[p]) for p in names_)
+                          + ";S=" + (",".join("|".join(bi(a.samples[p][i]) for p in names_) for i in range(nrows)) or "_")
+                          + ";T=" + (",".join(f"{a_}/{b_}/{c_}" for a_, b_, c_ in tunes) or "_")
+                          + ";B=" + ",".join(f"{len(a.samplers[p]._acc)}/{bi(a.samplers[p].current_point)}" for p in names_))
+                blocks_ = ";".join(f"{x0_}|{int(isinstance(a.samplers[p], M.NUTS))}|{int(a.num_sampling_steps[p])}" for x0_, p in zip(bx0, names_))
+                hlines.append(f"hgr {blocks_} {('w%d@1/2;' % K) if K else ''}s{N};get {','.join(f'{i_},{c_}' for i_, c_ in blog) or '_'}")
+                hmeta.append((keyb, {**desc, "model": "replay blocks"}, impl_r))
+            except Exception as e:
+                ctx.note(f"{keyb}: replay-block line not built: {repr(e)[:120]}")
             ids = Ids()
             hlines.append(f"hg {('w%d@1/2;' % K) if K else ''}s{N} {','.join(str(ids(x)) for x in sweeps) or '_'}")
             hmeta.append((keyb, desc, "S=" + (",".join(str(ids(x)) for x in ref) or "_") + ";T=" + (",".join(f"{a_}/{b_}/{c_}" for a_, b_, c_ in tunes) or "_")))
@@ -1430,6 +1484,7 @@ def gibbs_checks(ctx, cuqi, M, L, T, thorough, seed):
                 if not chains_equal(cb_chain, ref):
                     ctx.fail(keyb + ":split", {**desc, "position": p}, "sample(p); sample(N-p) == sample(N) bitwise",
                              f"position {p}: first difference at {first_diff(cb_chain, ref)}", "Gibbs chain is not continuous across a split")
+    ctx.extra_cov["hybrid_inner_step_patterns"] = inner_cov
     # ---- legacy Gibbs
     def mk_l():
         return L.Gibbs(target, {'x': L.LinearRTO, ('d', 'l'): L.Conjugate})
